@@ -12,11 +12,7 @@ Theorem C03_streaminfo_true :
     si_rate (s_info s) = rate /\ si_channels (s_info s) = channels /\ si_bps (s_info s) = bps /\
     si_total (s_info s) = N.of_nat (length samples) / channels /\
     si_md5 (s_info s) = md5 (md5_input bps samples).
-Proof.
-  intros ent qlpc md5 cfg rate channels bps bs samples s E.
-  destruct (streaminfo_of_encoded ent qlpc md5 _ _ _ _ _ _ _ E) as (H1 & H2 & H3 & H4 & H5 & _).
-  repeat split; assumption.
-Qed.
+Proof. exact streaminfo_true. Qed.
 Print Assumptions C03_streaminfo_true.
 
 (* the digest input does not depend on how the samples are delivered in blocks *)
